@@ -148,7 +148,7 @@ def spline(potential_forms, potential_form_builder):
     return getattr(pot, 'potential_form', getattr(pot, 'modifier', None))
 
   allowed_spline_types = [s.spline_keyword for s in spline_factories]
-  if not form_label(pot2) in allowed_spline_types:
+  if not (hasattr(pot2, 'potential_form') and form_label(pot2) in allowed_spline_types):
     allowed_spline_types_str = ["'{}'".format(t) for t in allowed_spline_types]
     allowed_spline_types_str = ",".join(allowed_spline_types_str)
     raise ConfigurationException("spline modifier only accepts spline types {} for middle potential form. '{}' was found instead".format(
